@@ -463,7 +463,53 @@ func setupConfigRoots(dir string) error {
 		}
 	}
 	configRoots["core"] = core
+	// "rev": the whole shipped configuration with every file renamed so that the loader's
+	// glob order is the reverse of the shipped one (C19: file names must not matter)
+	rev := filepath.Join(dir, "cfg-rev")
+	os.MkdirAll(filepath.Join(rev, ".ti-config"), 0o755)
+	ents, _ := os.ReadDir(filepath.Join(repoDir, "test", ".ti-config"))
+	var names []string
+	for _, e := range ents {
+		if strings.HasSuffix(e.Name(), ".json") {
+			names = append(names, e.Name())
+		}
+	}
+	sort.Strings(names)
+	for i, f := range names {
+		os.Symlink(filepath.Join(repoDir, "test", ".ti-config", f), filepath.Join(rev, ".ti-config", fmt.Sprintf("%03d_%s", len(names)-i, f)))
+	}
+	configRoots["rev"] = rev
+	// "extra": the shipped configuration plus declarations of classes no example program
+	// mentions, whose methods are named like common builtin methods (C20)
+	extra := filepath.Join(dir, "cfg-extra")
+	os.MkdirAll(filepath.Join(extra, ".ti-config"), 0o755)
+	for _, f := range names {
+		os.Symlink(filepath.Join(repoDir, "test", ".ti-config", f), filepath.Join(extra, ".ti-config", f))
+	}
+	for name, content := range extraConfigFiles {
+		os.WriteFile(filepath.Join(extra, ".ti-config", name), []byte(content), 0o644)
+	}
+	configRoots["extra"] = extra
 	return nil
+}
+
+// extraConfigFiles: classes Zzverifa (Builtin frame, sorted before and after the shipped files)
+// and Zzverifb (another frame, extends Array) that no example program mentions.
+var extraConfigFiles = map[string]string{
+	"000_zzverifa.json": `{"frame": "Builtin", "class": "Zzverifa", "instance_methods": [
+ {"name": "first", "arguments": [{"type": ["String"]}], "return_type": {"type": ["Float"]}},
+ {"name": "push", "arguments": [], "return_type": {"type": ["Float"]}},
+ {"name": "to_s", "arguments": [{"type": ["Int"]}], "return_type": {"type": ["Int"]}},
+ {"name": "nil?", "arguments": [{"type": ["Int"]}], "return_type": {"type": ["Int"]}},
+ {"name": "each", "arguments": [], "block_parameters": ["String"], "return_type": {"type": ["String"]}},
+ {"name": "+", "arguments": [{"type": ["Symbol"]}], "return_type": {"type": ["Symbol"]}},
+ {"name": "puts", "arguments": [{"type": ["Int"]}], "return_type": {"type": ["Int"]}}],
+ "class_methods": [{"name": "new", "arguments": [{"type": ["Int"]}], "return_type": {"type": ["Zzverifa"]}}, {"name": "methods", "arguments": [{"type": ["Int"]}], "return_type": {"type": ["Int"]}}]}`,
+	"zzz_zzverifb.json": `{"frame": "Zzframe", "class": "Zzverifb", "extends": ["Array"], "instance_methods": [
+ {"name": "first", "arguments": [], "return_type": {"type": ["Symbol"]}},
+ {"name": "sleep_ms", "arguments": [{"type": ["String"]}], "return_type": {"type": ["String"]}},
+ {"name": "length", "arguments": [{"type": ["Int"]}], "return_type": {"type": ["String"]}}],
+ "class_methods": [], "constants": [{"name": "MAX", "return_type": {"type": ["String"]}}]}`,
 }
 
 func sumCounts(m map[string]int) int {
